@@ -63,7 +63,7 @@ static void part_models(const std::vector<size_t>& ns) {
 static void part_plates(const std::vector<size_t>& ns) {
     const float fmaxs[] = {1e11f, 1e12f, 5e12f}; const float f0 = 2.7e6f;
     const double Rb = physcons::c / (2 * M_PI * f0);
-    for (size_t n : ns) for (float fmax : fmaxs) for (double g : {0.01, 0.032, 0.3}) {
+    for (size_t n : ns) for (float fmax : fmaxs) for (double g : {0.01, 0.032, 0.3, 1.0, 3.0, 10.0}) {
         std::string kase = mcx::Desc()("part", "plates")("n", n).f("fmax", fmax).f("gap", g).str();
         if (!R.mine(kase)) continue;
         if (R.out_of_time()) { R.not_completed = kase; return; }
@@ -82,7 +82,7 @@ static void part_plates(const std::vector<size_t>& ns) {
             }
         }
     }
-    R.bound_done("plates: sample counts x 3 f_max x 3 gaps against free space (f >= 20 f_c) and suppression (f <= f_c/2)");
+    R.bound_done("plates: sample counts x 3 f_max x 6 gaps (1 cm ... 10 m) against free space (f >= 20 f_c) and suppression (f <= f_c/2)");
 }
 
 static bool same(const std::vector<impedance_t>& a, const std::vector<impedance_t>& b, double& worst) {
